@@ -165,7 +165,8 @@ fn walk(o: &Object, id: (u32, u16), path: &mut Vec<Seg>, ctx: &Ctx, items: &mut 
                 }
                 path.pop();
             }
-            Some(json!({"k": "stream", "typ": typ, "crypt": {"f": crypt.0, "n": crypt.1, "ind": crypt.2}, "d": v, "pid": pid, "len": s.content.len(), "mem": []}))
+            Some(json!({"k": "stream", "typ": typ, "crypt": {"f": crypt.0, "n": crypt.1, "ind": crypt.2}, "d": v, "pid": pid, "len": s.content.len(), "mem": [],
+                        "il": matches!(s.dict.get(b"Length"), Ok(Object::Reference(_)))}))
         }
         _ => None,
     }
@@ -634,7 +635,9 @@ fn assemble(doc: &Document, containers: &[(u32, Vec<(u32, u16)>)], xref_id: u32)
         match o {
             Object::Stream(s) => {
                 let mut d = s.dict.clone();
-                d.set("Length", s.content.len() as i64);
+                if !matches!(d.get(b"Length"), Ok(Object::Reference(_))) {
+                    d.set("Length", s.content.len() as i64);
+                }
                 ser_dict(&d, false, &mut out);
                 out.extend_from_slice(b"\nstream\n");
                 out.extend_from_slice(&s.content);
@@ -690,7 +693,9 @@ fn write_object(out: &mut Vec<u8>, id: (u32, u16), o: &Object) {
     match o {
         Object::Stream(s) => {
             let mut d = s.dict.clone();
-            d.set("Length", s.content.len() as i64);
+            if !matches!(d.get(b"Length"), Ok(Object::Reference(_))) {
+                d.set("Length", s.content.len() as i64);
+            }
             ser_dict(&d, false, out);
             out.extend_from_slice(b"\nstream\n");
             out.extend_from_slice(&s.content);
@@ -801,7 +806,11 @@ fn via_file(doc: &Document, with_objstm: bool, rng: &mut Rng) -> Option<(Documen
     let top = doc.objects.keys().map(|k| k.0).max().unwrap_or(0).max(doc.max_id);
     let mut containers: Vec<(u32, Vec<(u32, u16)>)> = vec![];
     if with_objstm {
-        let eligible: Vec<(u32, u16)> = doc.objects.iter().filter(|(id, o)| id.1 == 0 && !matches!(o, Object::Stream(_))).map(|(id, _)| *id).collect();
+        // (the integer an indirect /Length names stays an ordinary object: the parser needs it while it reads the stream)
+        let lengths: Vec<(u32, u16)> = doc.objects.values().filter_map(|o| o.as_stream().ok())
+            .filter_map(|s| s.dict.get(b"Length").and_then(Object::as_reference).ok()).collect();
+        let eligible: Vec<(u32, u16)> = doc.objects.iter().filter(|(id, o)| id.1 == 0 && !matches!(o, Object::Stream(_)) && !lengths.contains(id))
+            .map(|(id, _)| *id).collect();
         let chosen: Vec<(u32, u16)> = eligible.into_iter().filter(|_| rng.chance(3, 4)).collect();
         if !chosen.is_empty() {
             let cut = if chosen.len() >= 2 && rng.chance(1, 2) { 1 + rng.below(chosen.len() - 1) } else { chosen.len() };
@@ -894,6 +903,17 @@ fn concrete_doc(objs: &Value, file: bool) -> Document {
             doc.objects.insert((i as u32 + 1, 0), concrete(o));
         }
         doc.max_id = i as u32 + 1;
+    }
+    // a stream whose /Length is "indirect": the integer object that follows it holds the length
+    for (i, o) in objs.as_array().unwrap().iter().enumerate() {
+        if o["k"] == "stream" && o["il"] == true {
+            let (sid, lid) = ((i as u32 + 1, 0), (i as u32 + 2, 0));
+            if let Some(Object::Stream(s)) = doc.objects.get_mut(&sid) {
+                let n = s.content.len() as i64;
+                s.dict.set("Length", Object::Reference(lid));
+                doc.objects.insert(lid, Object::Integer(n));
+            }
+        }
     }
     // a stream whose Crypt parameters are "indirect": they become the object that follows it
     for (i, o) in objs.as_array().unwrap().iter().enumerate() {
@@ -1100,6 +1120,18 @@ fn rand_doc(rng: &mut Rng, cfg: &Value) -> Document {
         d.set("Type", Object::Name(b"Metadata".to_vec()));
         d.set("Note", long_string(rng));
         doc.add_object(Object::Dictionary(d));
+    }
+    // /Length given through an indirect object (the spelling of streaming producers): an integer object of the
+    // document holds the length
+    let sids: Vec<(u32, u16)> = doc.objects.iter().filter(|(_, o)| matches!(o, Object::Stream(_)) && !bookkeeping(o)).map(|(id, _)| *id).collect();
+    for sid in sids {
+        if rng.chance(1, 3) {
+            let n = doc.objects[&sid].as_stream().map(|s| s.content.len()).unwrap_or(0) as i64;
+            let lid = doc.add_object(Object::Integer(n));
+            if let Some(Object::Stream(s)) = doc.objects.get_mut(&sid) {
+                s.dict.set("Length", Object::Reference(lid));
+            }
+        }
     }
     // (always a file identifier: a later Rekey may switch to a revision that needs it)
     {
